@@ -246,65 +246,7 @@ def perturbed(ctx, x, tag):          # noqa: F811  (matrix inputs bring their ow
     return _old_perturbed(ctx, x, tag)
 
 
-class FunctionalSolvers:
-    """contract of LinearSolver objects (C05/C06) in functional form: update(M) factorises the entries M has at that moment;
-    solve(b, x0, trans) = Solve_trans(entries of the factorised matrix, entries of b), the same function for every solver object
-    (all solver classes compute op(M)^-1 b; the initial guess x0 does not change the result beyond the solver tolerance)"""
-    def __init__(self, ctx, it, hermitian, is_complex, sparse):
-        self.ctx, self.it = ctx, it
-        self.cur = {}
-        self.log = []
-        it.summaries[f'{MC}:matrix_is_sparse'] = lambda itp, a, k: bool(isinstance(a[0], Obj) and a[0].tag == 'sparse')
-        it.summaries[f'{MC}:matrix_is_complex'] = lambda itp, a, k: is_complex
-        it.summaries[f'{MC}:matrix_is_hermitian'] = lambda itp, a, k: hermitian
-        it.summaries[f'{MC}:matrix_is_symmetric'] = lambda itp, a, k: hermitian and not is_complex
-        LS = it.get_function(f'{SOLV}:LinearSolver')
-        it.summaries['pymoto.solvers.auto_determine:auto_determine_solver'] = lambda itp, a, k: it.new_object(LS)
-        for c in ('LinearSolver', 'LDAWrapper'):
-            it.summaries[f'{SOLV}:{c}.update'] = self.upd
-            it.summaries[f'{SOLV}:{c}.solve'] = self.slv
-
-    def root(self, o):
-        while isinstance(o, Obj) and o.cls is not None and o.cls.name == 'LDAWrapper':
-            o = self.it.getattr(o, 'solver')
-        return o
-
-    def upd(self, itp, args, kw):
-        o = self.root(args[0])
-        M = args[1]
-        d = M.fields['dense'] if isinstance(M, Obj) else M
-        self.cur[id(o)] = (tuple(d.shape), list(d.data.reshape(-1)))
-        self.log.append(('update', id(o)))
-        return args[0]
-
-    def slv(self, itp, args, kw):
-        o = self.root(args[0])
-        b = args[1]
-        trans = kw.get('trans', args[3] if len(args) > 3 else 'N')
-        if id(o) not in self.cur:
-            raise PyExc('RuntimeError', 'solve before update')
-        shape, ents = self.cur[id(o)]
-        b = b if isinstance(b, CArr) else to_carr(b)
-        bents = list(b.data.reshape(-1))
-        cplx = any(isinstance(v, Cx) for v in ents + bents)
-        zargs = []
-        for v in ents + bents:
-            if cplx:
-                c = V.cx(v)
-                zargs += [V.zreal(c.re), V.zreal(c.im)]
-            else:
-                zargs.append(V.zreal(v))
-        out = np.empty(b.shape, dtype=object)
-        for r, idx in enumerate(np.ndindex(*b.shape)):
-            base = f'Solve{trans}_{shape[0]}x{"x".join(map(str, b.shape))}_{"c" if cplx else "r"}_{r}'
-            if cplx:
-                fr = z3.Function(base + '_re', *([z3.RealSort()] * len(zargs)), z3.RealSort())
-                fi = z3.Function(base + '_im', *([z3.RealSort()] * len(zargs)), z3.RealSort())
-                out[idx] = Cx(fr(*zargs), fi(*zargs))
-            else:
-                out[idx] = z3.Function(base, *([z3.RealSort()] * len(zargs)), z3.RealSort())(*zargs)
-        self.log.append(('solve', id(o), trans))
-        return CArr(out, 'complex' if cplx else 'real')
+from .solvercontract import FunctionalSolvers   # noqa: E402
 
 
 class SymVec:
@@ -364,9 +306,17 @@ for _part in (([0], [1, 2]), ([0, 2], [1])):
 from .C11 import sym_matrix as c11_matrix, sparse_of, install_class, ES, eqc
 
 
+def _concrete_pencil(tag, n):
+    from fractions import Fraction
+    t = int(tag)
+    A = CArr(np.array([[Fraction((1 + i * i + 2 * t) if i == j else 0) for j in range(n)] for i in range(n)], dtype=object), 'real')
+    B = CArr(np.array([[Fraction(1 + t if i == j else 0) for j in range(n)] for i in range(n)], dtype=object), 'real')
+    return A, B
+
+
 @harness(P, 'EigenSolve.adjoint_solvers_follow_the_current_pencil', targets=[f'{ES}._sparse_eigvec_sens', f'{ES}._sensitivity', f'{ES}._response', f'{ES}._sparse_eigs'],
          timeout=3000)
-def h_eig_adjoint(ctx, it):
+def h_eig_adjoint(ctx, it, concrete=False):
     """sparse EigenSolve with eigenvector seeds keeps one factorised solver per mode.  History: response(A1,B1), sensitivity seeding both modes,
     reset, response(A2,B2), sensitivity seeding mode 1 only, reset, sensitivity seeding mode 0 only (no new response in between).
     Every adjoint solve of mode i must run on a solver whose factorised matrix is  A - lambda_i B  of the LATEST response (entry by entry)"""
@@ -396,7 +346,7 @@ def h_eig_adjoint(ctx, it):
         it.summaries[DCq + nm] = lambda itp, a, kw: a[0]
 
     def respond(tag):
-        A, B = c11_matrix(ctx, f'a{tag}_', n, 'sym'), c11_matrix(ctx, f'b{tag}_', n, 'sym')
+        A, B = _concrete_pencil(tag, n) if concrete else (c11_matrix(ctx, f'a{tag}_', n, 'sym'), c11_matrix(ctx, f'b{tag}_', n, 'sym'))
         As, Bs = sparse_of(A), sparse_of(B)
         set_states(it, mod, [As, Bs])
         W, Q = it.call(it.getattr(mod, '_response'), [As, Bs])
@@ -439,6 +389,12 @@ def h_eig_adjoint(ctx, it):
     if len(s_c) == 1:
         ctx.prove('round2.second_sensitivity.mode0.solver_holds_current_shifted_matrix', z3.And(*[eqc(x, y) for x, y in zip(s_c[0][1], expect(A2, B2, W2, 0))]))
         ctx.prove('round2.second_sensitivity.adjoint_mode', s_c[0][2] == 'T')
+
+
+HARNESSES[(P, 'EigenSolve.adjoint_solvers_follow_the_current_pencil.concrete_pencils')] = dict(
+    HARNESSES[(P, 'EigenSolve.adjoint_solvers_follow_the_current_pencil')], fn=lambda ctx, it: h_eig_adjoint(ctx, it, concrete=True), timeout=10000,
+    doc='the same history on two different CONCRETE pencils (eigenpairs through the ARPACK contract): the hypotheses are trivially satisfiable, so a stale '
+        'factorisation is reported with a counter-model instead of staying undecided')
 
 
 # ------------------------------------------------------------------------------------------------ protocol-level clauses: the same obligations, same real functions
